@@ -828,6 +828,11 @@ class Ctx:
         if isinstance(n.op, ast.Not):
             return Not(self.truth(v))
         if isinstance(n.op, ast.USub):
+            if not is_num(v):
+                r = self.contract.call(self, "__binop__", ["Sub", 0, v], {}, n)
+                if r is not NotImplemented:
+                    return r
+                raise Unsupported(f"unary minus on {v!r}")
             return -v if not is_z3(v) or not z3.is_bool(v) else -I(v)
         if isinstance(n.op, ast.UAdd):
             return v
@@ -983,6 +988,11 @@ class Ctx:
         if isinstance(op, ast.Sub):
             return a - b if conc else (lambda x: x[0] - x[1])(num_coerce(a, b))
         if isinstance(op, ast.Mult):
+            if is_z3(a) and is_z3(b) and getattr(self.contract, "nonlinear_hooks", False):
+                # optional hook: a contract may abstract a product of two symbolic terms (keeps queries linear)
+                r = self.contract.call(self, "__nlmul__", [a, b], {}, n)
+                if r is not NotImplemented:
+                    return r
             return a * b if conc else (lambda x: x[0] * x[1])(num_coerce(a, b))
         if isinstance(op, ast.Div):
             if self.contract.safety:
@@ -997,6 +1007,11 @@ class Ctx:
                 return a // b if isinstance(op, ast.FloorDiv) else a % b
             if not (is_int(a) and is_int(b)):
                 raise Unsupported(f"floor division on reals at line {line}")
+            if is_z3(b) and getattr(self.contract, "nonlinear_hooks", False):
+                # optional hook: division by a symbolic divisor modelled by the contract -> (quotient, remainder)
+                qr = self.contract.call(self, "__nldivmod__", [a, b], {}, n)
+                if qr is not NotImplemented:
+                    return qr[0] if isinstance(op, ast.FloorDiv) else qr[1]
             q, r = floordiv(a, b)
             return q if isinstance(op, ast.FloorDiv) else r
         if isinstance(op, ast.Pow):
@@ -1110,10 +1125,8 @@ class Ctx:
         return None
 
     def ev_Slice(self, n):
-        # a slice inside a subscript tuple (``X[a:b, :]``): the value ("slice", lo, hi, step); contracts interpret it
-        # in their ``__getitem__`` hook
-        return ("slice", self.ev(n.lower) if n.lower else None, self.ev(n.upper) if n.upper else None,
-                self.ev(n.step) if n.step else None)
+        return slice(self.ev(n.lower) if n.lower else None, self.ev(n.upper) if n.upper else None,
+                     self.ev(n.step) if n.step else None)
 
     def ev_JoinedStr(self, n):
         return self.Opaque("fstr")
@@ -1269,6 +1282,10 @@ class Ctx:
                     if len(args) > 1:
                         return args[1]
                     raise PyRaise("KeyError", n.lineno)
+            if isinstance(recv, str) and n.func.attr in ("upper", "lower", "strip", "startswith", "endswith", "format",
+                                                         "replace", "split", "join") \
+                    and all(isinstance(x, (str, int, tuple)) for x in args) and not kwargs:
+                return getattr(recv, n.func.attr)(*args)  # pure string method on concrete strings
             if isinstance(recv, list) and n.func.attr == "append":
                 recv.append(args[0])
                 return None
@@ -1281,6 +1298,13 @@ class Ctx:
                     if c is True or (not isinstance(c, bool) and self.decide(c, n.lineno)):
                         return k
                 raise PyRaise("ValueError", n.lineno)
+        # a lambda / local closure value being called
+        try:
+            fv = self.ev(n.func)
+        except Unsupported:
+            fv = None
+        if isinstance(fv, tuple) and len(fv) == 3 and fv[0] == "lambda" and not kwargs:
+            return self.apply_lambda(fv, args)
         raise Unsupported(f"call to {fname!r} at line {n.lineno}: no contract")
 
     def call_contract(self, callee, args, kwargs, n, recv=None):
